@@ -179,6 +179,25 @@ pub fn explore(ctx: &Ctx) {
             jobs.push((Site::new(lat, zs[0].0, 0.0, zs[0].1), pm, a, b, None));
         }
     }
+    // latitudes just below the usual band (46.56 < |lat| <= 48.5: only the deepest Fajr angles miss a few weeks)
+    for &lat in &[47.0, 48.2, -47.5, 48.5] {
+        for m in [Method::Egyptian, Method::Egypt] {
+            jobs.push((Site::new(lat, zs[0].0, 0.0, zs[0].1), Params::new(m), ymd(2023, 1, 1), ymd(2024, 12, 31), None));
+        }
+    }
+    // very deep custom angles: the no-twilight season takes most of the year, so the nearest good date is
+    // up to half a year away (the search radius itself)
+    let deep: Vec<f64> = if quick { vec![40.0, 49.0, 49.4396] } else { vec![30.0, 40.0, 45.0, 48.0, 49.0, 49.3, 49.4396] };
+    for &a in &deep {
+        for &(lat, lon, gmt) in &[(64.0, 25.0, 2.0), (-64.0, -90.0, -6.0)] {
+            let mut pm = Params::new(Method::Mwl);
+            pm.angles.insert(Prayer::Fajr, a);
+            pm.angles.insert(Prayer::Isha, a);
+            jobs.push((Site::new(lat, lon, 0.0, gmt), pm, ymd(2023, 1, 1), ymd(2024, 12, 31), None));
+        }
+    }
+    ctx.alphabet("low_band_lats_egyptian", json!([47.0, 48.2, -47.5, 48.5]));
+    ctx.alphabet("deep_custom_angles_at_64", json!(deep));
     ctx.alphabet("custom_angles_fajr_isha", json!({"angles": custom, "lats": lats_c}));
     ctx.alphabet("lats", json!(lats));
     ctx.alphabet("zones", json!(zs));
